@@ -178,6 +178,12 @@ package registry
 
 // writes are only recorded: appended after the earlier ones (which keep their order), the
 // committed bag is not touched
+// the matched write rules are applied in the order of their storage paths (a parent path before the
+// paths nested in it), so that a nested write is never overwritten by its parent's
+//@ func (*View).Set$1
+//@   props C30
+//@   ensures result == (matches[x].storagePath < matches[y].storagePath)
+
 //@ func (*Transaction).Set
 //@   props C30
 //@   ensures result == nil && len(t.deltas) == old(len(t.deltas)) + 1
@@ -196,4 +202,6 @@ package registry
 //@ func (*Transaction).Commit
 //@   props C30
 //@   guard call (registry.DatabagWrite): schemaOK(t.registry.Schema, data)
+//@   guard call (registry.DatabagWrite): [fresh-read-plus-all-writes] called("DatabagRead") && calledAfter("applyDeltas", "DatabagRead")
+//@   guard call applyDeltas: [on-the-fresh-copy] arg0 == pristine && arg1 == t.deltas && called("DatabagRead")
 //@   ensures result == nil ==> len(t.deltas) == 0
